@@ -2,6 +2,13 @@ import MosnVerif.Lemmas.DownstreamProps
 import MosnVerif.Lemmas.Downstream.Parked
 import MosnVerif.Lemmas.Downstream.Prov
 import MosnVerif.Lemmas.Downstream.Backoff9
+import MosnVerif.Lemmas.Downstream.Timer10
+import MosnVerif.Lemmas.Downstream.Budget10
+import MosnVerif.Lemmas.Downstream.TimerObj10
+import MosnVerif.Lemmas.Downstream.Window10
+import MosnVerif.Lemmas.ReplyWrite
+import MosnVerif.Lemmas.ReplyWriteMachine
+import MosnVerif.Lemmas.XHijack
 /-!
 # C03 — every request ends exactly once, with one reply, in bounded time (property theorems only)
 
@@ -11,7 +18,9 @@ control flow from `pkg/proxy/downstream.go`, `upstream.go`, `retrystate.go`, `pk
 load `ar aq`, and **every** schedule `l : List Label` — an arbitrary interleaving of worker steps (one phase each), upstream
 responses (complete, or only the head of a streamed response whose body / trailers follow later), the end of a streamed
 body, upstream resets with any reason (also after the response head was forwarded), pool failures, per-try and global
-timer callbacks, downstream resets, connection closes and asynchronous `TerminateStream` calls on the parked worker.  Everything follows from `inv_run` (Lemmas/Downstream.lean) by induction on the schedule.
+timer callbacks (also the global timer callback landing inside `setupRetry`: `gtInSetup`), downstream resets, connection closes and
+asynchronous `TerminateStream` calls while the worker is parked or asleep in `doRetry`'s back-off — every label at every point, the
+back-off sleep included.  Everything follows from `inv_run` (Lemmas/Downstream.lean) by induction on the schedule.
 -/
 namespace MosnVerif.Props.C03
 open MosnVerif.Model.Downstream MosnVerif.Gen.ProxyPhase MosnVerif.Gen.ProxyReason
@@ -330,7 +339,7 @@ theorem terminate_claims (c : Cfg) (ar aq : Nat) (l : List Label) (code : Nat) (
   simp only [reach, run, List.foldl_append, List.foldl_cons, List.foldl_nil, step]
   simp only [reach, run] at hpk hnr hcl hurr
   rw [terminateL_eq]
-  simp [hpk, hnr, hcl, hurr, terminateAcc]
+  simp [asleep, hpk, hnr, hcl, hurr, terminateAcc]
 
 /-- **global_timer_spans_retries**: the global timer armed when the request was completely sent is neither stopped nor
 re-armed by a retry.  (1) `setupRetry` (accepting a retry) stops the per-try timer only — regenerated from its body.
@@ -455,67 +464,545 @@ example : ((fun (s : S) => (s.gtGen, s.global, s.perTry, s.trace))
 example : ((fun (s : S) => (s.gtGen, s.global))
     (reach { hasData := true } 0 0 ([.poolFail .connfail] ++ List.replicate 12 .work))) = (1, true) := by decide
 
-/-! ## proxy9: `terminate during the back-off` (labels of `Model/DownstreamBackoff.lean`) -/
+/-! ## proxy9 → proxy10: the back-off sleep of `doRetry` is a state of the machine
+
+The worker asleep in `doRetry`'s back-off is the state `backoff` (phase `Retry`, not yet woken).  Every label may fire there —
+the asynchronous `TerminateStream` (`terminate` / `terminateStale` / `terminateRaced`: delivered whenever the worker is
+`asleep`), a late frame of the given-up attempt (`lateResp`), the global timer callback (`globalFire`; `gtInSetup` when it had
+landed inside `setupRetry`), the client's departure (`downReset`, `connClose`), resets / answers of dead streams, `hostsGone`,
+`poolFail` — and `work` in that state is the wake-up: the REGENERATED `doRetry` (`Gen.ProxyBackoff.doRetry`) with what it
+re-checks after the sleep.  So `sender_once`, `clean_once`, `outcome_total`, `worker_returns_iff_cleaned`, … above and C10's
+ledger theorems quantify over schedules with all these interleavings (`inv_run` is proved for the whole label type).  The
+theorems below say what the wake-up does. -/
 
 /-- **terminate_in_backoff_accepted_iff**: on every schedule that leaves the worker in `doRetry`'s back-off sleep, an
-asynchronous `TerminateStream(code)` delivered there (regenerated step program `Gen.ProxyTerminate`) is accepted exactly when
-no response headers are stored (the attempt was given up for a reset / per-try timeout, not for its status) and the response
-slot is free (the global timer has not fired meanwhile); the call itself writes nothing to the trace, and an accepted call
-leaves the header-only local reply `code` pending with the worker still in the Retry phase. -/
+asynchronous `TerminateStream(code)` delivered there (label `terminate`: regenerated step program `Gen.ProxyTerminate`) is
+accepted exactly when no response headers are stored (the attempt was given up for a reset / per-try timeout, not for its
+status) and the response slot is free (neither the global timer nor an earlier call took it meanwhile); the call itself
+writes nothing to the trace, the worker stays asleep, and an accepted call leaves the header-only local reply `code` pending. -/
 theorem terminate_in_backoff_accepted_iff (c : Cfg) (ar aq : Nat) (l : List Label) (code : Nat)
-    (hb : backoff (reach c ar aq l) = true) :
-    (terminateB c (reach c ar aq l) code).trace = (reach c ar aq l).trace ∧
-    ((terminateB c (reach c ar aq l) code).direct = true ↔
+    (hb : backoff (reach c ar aq l) = true) (hnd : (reach c ar aq l).direct = false) :
+    (reach c ar aq (l ++ [.terminate code])).trace = (reach c ar aq l).trace ∧
+    backoff (reach c ar aq (l ++ [.terminate code])) = true ∧
+    ((reach c ar aq (l ++ [.terminate code])).direct = true ↔
       ((reach c ar aq l).resp.isSome = false ∧ (reach c ar aq l).urr = false)) ∧
-    ((terminateB c (reach c ar aq l) code).direct = true →
-      (terminateB c (reach c ar aq l) code).respCode = code ∧
-      (terminateB c (reach c ar aq l) code).resp = some ⟨false, false⟩) := by
-  have h := terminateB_spec c ar aq (reach c ar aq l) code (inv_run c ar aq l) hb
-  exact ⟨h.1, h.2.2.2.2.2.2.2.1, fun hd => ⟨(h.2.2.2.2.2.2.2.2 hd).2.1, (h.2.2.2.2.2.2.2.2 hd).2.2⟩⟩
+    ((reach c ar aq (l ++ [.terminate code])).direct = true →
+      (reach c ar aq (l ++ [.terminate code])).respCode = code ∧
+      (reach c ar aq (l ++ [.terminate code])).resp = some ⟨false, false⟩) := by
+  have h := terminate_backoff_spec c ar aq (reach c ar aq l) code (inv_run c ar aq l) hb
+  simp only [reach, run, List.foldl_append, List.foldl_cons, List.foldl_nil, step]
+  simp only [reach, run] at h hnd
+  refine ⟨h.1, h.2.2.1, ?_, fun hd => ⟨(h.2.2.2.2.2.2 hnd hd).2.1, (h.2.2.2.2.2.2 hnd hd).2.2⟩⟩
+  rw [h.2.2.2.2.2.1]
+  simp [hnd]
 
-/-- **terminate_in_backoff_not_forwarded** (C14: a denied request is never forwarded; C03: one reply): on every schedule
-that leaves the worker in the back-off, after an ACCEPTED `TerminateStream` there (client still connected) the Retry pass
-(`workB`: `doRetry` with the regenerated guard `retrySkipsOnDirect`, then `processError`) creates NO upstream attempt — no
-`NewStream`, admitted or refused, no new client stream — and hands the pending local reply to the response pass (the worker
-leaves the Retry phase).  Needs `Gen.ProxyPhase.retrySkipsOnDirect = true`: without the test in `doRetry` the proof does
-not build (negation witness below). -/
-theorem terminate_in_backoff_not_forwarded (c : Cfg) (ar aq : Nat) (l : List Label) (code : Nat)
-    (hb : backoff (reach c ar aq l) = true)
-    (hacc : (terminateB c (reach c ar aq l) code).direct = true)
-    (hcli : (reach c ar aq l).downReset = false) :
-    (workB c (terminateB c (reach c ar aq l) code)).streams.length = (reach c ar aq l).streams.length ∧
-    (workB c (terminateB c (reach c ar aq l) code)).trace.filter attemptEv = (reach c ar aq l).trace.filter attemptEv ∧
-    (workB c (terminateB c (reach c ar aq l) code)).phase ≠ .Retry := by
-  have h := terminateB_spec c ar aq (reach c ar aq l) code (inv_run c ar aq l) hb
-  obtain ⟨htr, hst, hph, hrun, hcl, hdr, _, _, himp⟩ := h
-  have hw := workB_direct_no_attempt c (terminateB c (reach c ar aq l) code) hrun hph hacc hcl (himp hacc).1 (hdr.trans hcli)
-  exact ⟨by rw [hw.1, hst], by rw [hw.2.1, htr], hw.2.2⟩
+/-- **terminate_in_backoff_not_forwarded** (C14: a denied request is never forwarded; C03: one reply): on every schedule that
+leaves the worker in the back-off with a local reply pending — an asynchronous `TerminateStream` was ACCEPTED there, whatever
+else landed during the rest of the sleep (the client's departure, the connection close, late frames, the global timer …) —
+the wake-up (`work`: the regenerated `doRetry` returns at its test `if s.directResponse`, then `processError`) creates NO
+upstream attempt — no `NewStream`, admitted or refused, no new client stream — and the worker leaves the Retry phase (the
+pending reply goes to the response pass; or, the client gone, the stream is cleaned).  No hypothesis on `downstreamReset`. -/
+theorem terminate_in_backoff_not_forwarded (c : Cfg) (ar aq : Nat) (l : List Label)
+    (hb : backoff (reach c ar aq l) = true) (hacc : (reach c ar aq l).direct = true) :
+    (reach c ar aq (l ++ [.work])).streams.length = (reach c ar aq l).streams.length ∧
+    (reach c ar aq (l ++ [.work])).trace.filter attemptEv = (reach c ar aq l).trace.filter attemptEv ∧
+    ((reach c ar aq (l ++ [.work])).running = false ∨ (reach c ar aq (l ++ [.work])).phase ≠ .Retry) := by
+  have hi := inv_run c ar aq l
+  obtain ⟨hcl, _, _, _, _, _, _, _, _, _, _, hdf⟩ := backoff_facts c ar aq _ hi hb
+  have := wake_direct_no_attempt c (reach c ar aq l) hb hacc hcl (hdf hacc).2.1
+  simpa [reach, run, List.foldl_append, step, att] using this
 
-/-- the machine's own runs are untouched by the extension: `workB = work` on every reachable state -/
-theorem backoff_extension_conservative (c : Cfg) (ar aq : Nat) (l : List Label) :
-    workB c (reach c ar aq l) = work c (reach c ar aq l) := workB_eq_work c ar aq _ (inv_run c ar aq l)
+/-- **backoff_wake_no_attempt** (sensitivity: `doRetry` must re-check after its sleep): on every schedule that leaves the worker
+in the back-off, when meanwhile the client left (`downstreamReset`), an upstream reset was raised (the global timer fired
+during the sleep), a local reply became pending, or the expiry of the global timeout was recorded (its callback landed inside
+`setupRetry`), the wake-up creates no upstream attempt.  Rests on the regenerated guards: `upstreamRequest.appendHeaders`
+starts with `processDone()` = `upstreamProcessDone || downstreamReset == 1 || upstreamReset == 1`, `doRetry` tests
+`directResponse` and `globalTimeoutExpired` after the sleep. -/
+theorem backoff_wake_no_attempt (c : Cfg) (ar aq : Nat) (l : List Label) (hb : backoff (reach c ar aq l) = true)
+    (h : (reach c ar aq l).downReset = true ∨ (reach c ar aq l).upReset = true ∨ (reach c ar aq l).direct = true ∨
+      (reach c ar aq l).globalExpired = true) :
+    (reach c ar aq (l ++ [.work])).trace.filter attemptEv = (reach c ar aq l).trace.filter attemptEv := by
+  have hi := inv_run c ar aq l
+  obtain ⟨_, _, hup, _⟩ := backoff_facts c ar aq _ hi hb
+  have := wake_no_attempt c (reach c ar aq l) hb (by
+    rcases h with h | h | h | h
+    · exact Or.inr (Or.inr (Or.inl h))
+    · exact Or.inr (Or.inr (Or.inr h))
+    · exact Or.inl h
+    · exact Or.inr (Or.inl ⟨h, by rw [hup]; rfl⟩))
+  simpa [reach, run, List.foldl_append, step, att] using this
 
-/-- non-vacuity: attempt 0 reset (connection failed, retried), the worker sleeps, TerminateStream(418) lands, the worker runs
-on: ONE attempt, the client gets the 418, everything is given back -/
+/-- the regenerated guards the two theorems above rest on, as the Go source has them -/
+theorem backoff_guards_regenerated :
+    Gen.ProxyPhase.retrySkipsOnDirect = true ∧ Gen.ProxyBackoff.appendHeadersChecksDone = true ∧
+    Gen.ProxyBackoff.appendDataChecksDone = true ∧ Gen.ProxyBackoff.appendTrailersChecksDone = true ∧
+    (∀ pd dr ur, Gen.ProxyBackoff.processDone pd dr ur = (pd || dr || ur)) := by
+  refine ⟨by decide, by decide, by decide, by decide, ?_⟩
+  intro pd dr ur; cases pd <;> cases dr <;> cases ur <;> rfl
+
+/-- the machine's `processDone` is the regenerated one -/
+theorem processDone_regenerated (s : S) :
+    processDone s = Gen.ProxyBackoff.processDone s.procDone s.downReset s.upReset := by
+  simp [processDone, Gen.ProxyBackoff.processDone]
+
+/-- non-vacuity: attempt 0 reset (connection failed, retried), the worker sleeps, TerminateStream(418) lands, the worker wakes:
+ONE attempt, the client gets the 418, everything is given back -/
 example : ((fun (s : S) => (s.trace, s.cleaned, s.upActive, s.retries))
-    (settleB { retryOn := true, numRetries := 1, maxRetries := 1 } 8
-      (terminateB { retryOn := true, numRetries := 1, maxRetries := 1 }
-        (reach { retryOn := true, numRetries := 1, maxRetries := 1 } 0 0
-          (List.replicate 12 .work ++ [.upReset 0 .StreamConnectionFailed, .work])) 418))) =
+    (reach { retryOn := true, numRetries := 1, maxRetries := 1 } 0 0
+      (List.replicate 12 .work ++ [.upReset 0 .StreamConnectionFailed, .work, .terminate 418] ++ List.replicate 4 .work))) =
     ([.un 0, .uh 0 true, .dh 418 true, .log 418 0x2000], true, 0, 0) := by decide
-/-- negation witness: `doRetry` WITHOUT the test (the machine's plain `work`) sends the denied request upstream again —
-attempt 1 is created after the accepted TerminateStream — and nobody resets it: the exchange ends with the stream live -/
+/-- … the same with the client leaving during the rest of the sleep: no attempt, no reply, the stream is cleaned -/
+example : ((fun (s : S) => (s.trace, s.cleaned, s.upActive, s.retries))
+    (reach { retryOn := true, numRetries := 1, maxRetries := 1 } 0 0
+      (List.replicate 12 .work ++ [.upReset 0 .StreamConnectionFailed, .work, .terminate 418,
+        .downReset .StreamConnectionTermination] ++ List.replicate 2 .work))) =
+    ([.un 0, .uh 0 true, .log 504 0x2000], true, 0, 0) := by decide
+/-- the client leaves during the back-off (no terminate): the wake-up creates no attempt 1 -/
 example : ((fun (s : S) => (s.trace, s.cleaned, s.upActive))
-    (settle { retryOn := true, numRetries := 1 } 8
-      (terminateB { retryOn := true, numRetries := 1 }
-        (reach { retryOn := true, numRetries := 1 } 0 0
-          (List.replicate 12 .work ++ [.upReset 0 .StreamConnectionFailed, .work])) 418))) =
-    ([.un 0, .uh 0 true, .un 1, .uh 1 true, .dh 418 true, .log 418 0x2000], true, 1) := by decide
-/-- a retry because of the STATUS keeps the stale response headers: the call is refused, the retry goes on -/
-example : (terminateB { retryOn := true, numRetries := 1 }
     (reach { retryOn := true, numRetries := 1 } 0 0
-      (List.replicate 12 .work ++ [.upResp 0 503 false false] ++ List.replicate 3 .work)) 418).direct = false ∧
+      (List.replicate 12 .work ++ [.upReset 0 .StreamConnectionFailed, .work, .downReset .StreamConnectionTermination, .work]))) =
+    ([.un 0, .uh 0 true, .log 504 0], true, 0) := by decide
+/-- a retry because of the STATUS keeps the stale response headers: the call is refused, the retry goes on -/
+example : (reach { retryOn := true, numRetries := 1 } 0 0
+      (List.replicate 12 .work ++ [.upResp 0 503 false false] ++ List.replicate 3 .work ++ [.terminate 418])).direct = false ∧
     backoff (reach { retryOn := true, numRetries := 1 } 0 0
       (List.replicate 12 .work ++ [.upResp 0 503 false false] ++ List.replicate 3 .work)) = true := by decide
+
+/-! ## c03t10 — the reply MOSN generates itself exists on the wire, for every xprotocol codec (Model/XHijack.lean) -/
+section XHijack
+open MosnVerif.Model.XHijack
+
+/-- **local_reply_frame_exists**: for every codec, every request id and EVERY http-style code (in particular every code MOSN
+generates: 404, 502, 503, 504, 500, the code of a stream filter's hijack / TerminateStream) the server stream has a frame to
+write: Hijack does not return nil, Mapping / the status map (default branch included) yields a defined protocol status,
+buildHijackResp goes through Mapping and endStream writes a non-nil frame. -/
+theorem local_reply_frame_exists (c : Codec) (reqId code : Nat) : (wire c reqId code).isSome = true :=
+  MosnVerif.Lemmas.XHijack.wire_isSome c reqId code
+
+/-- **local_reply_decodes_and_correlates_partial**: the reply carries the REQUEST's id and both fields fit the codec's wire
+fields (id below 2^idBits when the request's id is, status below 2^statusBits), so the field encoders of the codec models are
+injective on them. Full statement (not proved here): `decode c (encode c reply) = reply` over the byte-level codec models of
+C01 (Model/Bolt, Dubbo, Tars); the byte-level round trip is covered by the correspondence run only (dec=1: MOSN's codec
+decodes the frame with this id and status). -/
+theorem local_reply_decodes_and_correlates_partial (c : Codec) (reqId code : Nat) (r : Reply)
+    (h : wire c reqId code = some r) : r.id = reqId ∧ r.status < 2 ^ statusBits c :=
+  MosnVerif.Lemmas.XHijack.wire_correlates c reqId code r h
+
+example : wire .tars 7 404 = some ⟨7, 4294967292⟩ := by decide
+example : wire .bolt 4294967295 504 = some ⟨4294967295, 7⟩ := by decide
+example : wire .dubbo 5 418 = some ⟨5, 70⟩ := by decide
+
+/-- **mapping_total**: every code maps to a defined protocol status; a code outside the codec's table takes the default
+branch (bolt / boltv2: ResponseStatusUnknown; dubbo: Response_SERVICE_ERROR; dubbo-thrift: the zero value of the unchecked
+map lookup = UNKNOWN_APPLICATION_EXCEPTION; tars: TARSSERVERUNKNOWNERR). -/
+theorem mapping_total (c : Codec) (code : Nat) :
+    (∃ st, status c code = some st) ∧ ((table c).lookup code = none → statusName c code = dflt c) :=
+  ⟨Option.isSome_iff_exists.mp (MosnVerif.Lemmas.XHijack.status_isSome c code), fun h => by simp [statusName, h]⟩
+
+example : statusName .bolt 418 = "ResponseStatusUnknown" ∧ status .bolt 418 = some 3 := by decide
+example : statusName .tars 418 = "TARSSERVERUNKNOWNERR" := by decide
+
+/-- **oneway_never_answered**: a one-way request is never answered, whatever the cause and the code; a heartbeat is answered
+by the stream layer's ack only (never by a hijack reply). -/
+theorem oneway_never_answered (c : Codec) (up : Bool) (reqId code : Nat) :
+    replies c .ow up reqId code = [] ∧ (replies c .hb up reqId code).all (·.1) = true := by
+  constructor <;> rfl
+
+/-- **two_way_answered_once**: a two-way request that MOSN ends itself is answered by exactly one frame -/
+theorem two_way_answered_once (c : Codec) (up : Bool) (reqId code : Nat) : (replies c .tw up reqId code).length = 1 := by
+  unfold replies
+  cases up
+  · have h := local_reply_frame_exists c reqId code
+    cases hw : wire c reqId code with
+    | none => rw [hw] at h; cases h
+    | some r => simp
+  · simp
+
+/-- negation witness (the silence): with a Hijack that returns nil (tars before 3303a3fc8) nothing is written, for every code -/
+example : ∀ code ∈ [404, 502, 503, 504, 500], hijackWith true true .tars 7 code = none := by decide
+
+end XHijack
+/-! ## proxy10: the global timer callback inside `setupRetry`; a streamed response reset before its head is forwarded -/
+
+/-- **global_timeout_in_retry_setup**: the global timer callback that lands INSIDE `setupRetry` — after the test of
+`globalTimeoutExpired`, with the given-up upstream request marked, before (`afterCas = false`) or after (`true`) the response
+slot is swung back: label `gtInSetup` — has its reset dropped by the marked request, but records the expiry; on every schedule
+the wake-up that follows creates NO further attempt (`doRetry` re-checks the expiry: fix fac205b27), and — nothing else
+happening — three more worker steps answer the request with the timeout reply and clean the stream: the timeout is not lost. -/
+theorem global_timeout_in_retry_setup (c : Cfg) (ar aq : Nat) (l : List Label) (b : Bool)
+    (hb : backoff (reach c ar aq l) = true) (hg : (reach c ar aq l).global = true) :
+    (reach c ar aq (l ++ [.gtInSetup b])).globalExpired = true ∧ (reach c ar aq (l ++ [.gtInSetup b])).global = false ∧
+    backoff (reach c ar aq (l ++ [.gtInSetup b])) = true ∧
+    (reach c ar aq (l ++ [.gtInSetup b, .work])).trace.filter attemptEv = (reach c ar aq l).trace.filter attemptEv := by
+  have e : reach c ar aq (l ++ [.gtInSetup b]) =
+      { reach c ar aq l with global := false, globalExpired := true, urr := (reach c ar aq l).urr || b } := by
+    simp only [reach, run, List.foldl_append, List.foldl_cons, List.foldl_nil, step, gtInSetup]
+    simp only [reach, run] at hb hg
+    have hrec : globalCallbackRecordsExpiry = true := by decide
+    simp [hb, hg, hrec]
+  have hb2 : backoff (reach c ar aq (l ++ [.gtInSetup b])) = true := by rw [e]; simpa [backoff] using hb
+  refine ⟨by rw [e], by rw [e], hb2, ?_⟩
+  have h2 := backoff_wake_no_attempt c ar aq (l ++ [.gtInSetup b]) hb2 (Or.inr (Or.inr (Or.inr (by rw [e]))))
+  have e2 : l ++ [Label.gtInSetup b, .work] = (l ++ [.gtInSetup b]) ++ [.work] := by simp
+  rw [e2, h2, e]
+
+/-- non-vacuity: attempt 0 reset and retried, the global timer fires inside `setupRetry` after the swing; the upstream stays
+silent: the client gets the 504 (on the code before fac205b27 attempt 1 was created here and nothing ever answered) -/
+example : ((fun (s : S) => (s.trace, s.cleaned, s.upActive))
+    (reach { retryOn := true, numRetries := 1 } 0 0
+      (List.replicate 12 .work ++ [.upReset 0 .StreamConnectionFailed, .work, .gtInSetup true] ++ List.replicate 4 .work))) =
+    ([.un 0, .uh 0 true, .dh 504 true, .log 504 4], true, 0) := by decide
+/-- … before the swing (retriable status): the same -/
+example : ((fun (s : S) => (s.trace, s.cleaned))
+    (reach { retryOn := true, numRetries := 1 } 0 0
+      (List.replicate 12 .work ++ [.upResp 0 503 false false] ++ List.replicate 3 .work ++ [.gtInSetup false] ++
+        List.replicate 4 .work))) =
+    ([.un 0, .uh 0 true, .dh 504 true, .log 504 4], true) := by decide
+
+/-- **streamed_reset_any_phase**: the reset of the open client stream of a streamed response (head accepted, body in flight)
+is a label of the machine in EVERY state — also while the worker has not yet consumed the wake-up of the head, runs the
+sender filters, or is about to forward the head: on every schedule, for every live, counted, listened client stream, the label
+raises `upstreamReset` (unless one is pending), destroys the stream, and writes nothing downstream.  With `sender_once` /
+`outcome_total` / `ledger_exact` quantifying over such schedules: before the head is forwarded the reset is answered or
+retried like any reset, after it the client stream is reset (`partial_reset_completes`). -/
+theorem streamed_reset_any_phase (c : Cfg) (ar aq : Nat) (l : List Label) (k : Nat) (r : Reason) (st : Stream)
+    (hk : (reach c ar aq l).streams[k]? = some st)
+    (hst : st.real = true ∧ st.live = true ∧ st.counted = true ∧ st.listening = true) :
+    (reach c ar aq (l ++ [.upReset k r])).upReset = true ∧
+    (reach c ar aq (l ++ [.upReset k r])).trace = (reach c ar aq l).trace ∧
+    liveCount (reach c ar aq (l ++ [.upReset k r])).streams = 0 := by
+  have hi := inv_run c ar aq l
+  have hi2 := inv_run c ar aq (l ++ [.upReset k r])
+  have hlc : streamLiveCounted (reach c ar aq l) k = true := by simp [streamLiveCounted, hk, hst.2.1, hst.2.2.1]
+  have hpos := liveCounted_pos _ k hlc
+  obtain ⟨hcl, _, _⟩ := live_ctx c ar aq _ hi hpos
+  have hsr := (hi.k7 hcl).1
+  have hur : (reach c ar aq l).upReset = false := by
+    cases hu : (reach c ar aq l).upReset with
+    | false => rfl
+    | true => have h0 : liveCount (reach c ar aq l).streams = 0 := hi.k23 hcl (Or.inl hu); omega
+  have e : (reach c ar aq (l ++ [.upReset k r])) = destroyStream c (upOnResetStream (reach c ar aq l) r) k := by
+    simp only [reach, run, List.foldl_append, List.foldl_cons, List.foldl_nil, step]
+    simp only [reach, run] at hk
+    simp [upResetL, hk, hst.1, hst.2.1, hst.2.2.1, hst.2.2.2]
+  have hup : (reach c ar aq (l ++ [.upReset k r])).upReset = true := by
+    rw [e]; simp only [reach, run] at hsr hur ⊢; simp [upOnResetStream, hsr, hur]
+  refine ⟨hup, by rw [e]; simp [upOnResetStream], ?_⟩
+  have hcl2 : (reach c ar aq (l ++ [.upReset k r])).cleaned = false := by
+    rw [e]; simp only [reach, run] at hcl ⊢; simp [upOnResetStream, hcl]
+  exact hi2.k23 hcl2 (Or.inl hup)
+
+/-- non-vacuity: the head of a streamed 200 is accepted, the worker has NOT yet run (wake-up pending in WaitNotify), the stream
+is reset with a retriable reason and budget left: retried — nothing had gone downstream; the retried attempt answers -/
+example : ((fun (s : S) => (s.trace, s.cleaned, s.upActive))
+    (reach { retryOn := true, numRetries := 1 } 0 0 (List.replicate 12 .work ++
+      [.upRespS 0 200 true false, .upReset 0 .StreamConnectionTermination, .work, .work, .work, .upResp 1 200 false false] ++
+      List.replicate 4 .work))) =
+    ([.un 0, .uh 0 true, .un 1, .uh 1 true, .dh 200 true, .log 200 0], true, 0) := by decide
+/-- … at UpRecvHeader (the head about to be forwarded), no retry policy: the error reply of the reason, one reply -/
+example : ((fun (s : S) => (s.phase, s.trace))
+    (reach {} 0 0 (List.replicate 12 .work ++ [.upRespS 0 200 true false, .work, .work]))) = (.UpRecvHeader, [.un 0, .uh 0 true]) ∧
+    ((fun (s : S) => (s.trace, s.cleaned, s.upActive))
+    (reach {} 0 0 (List.replicate 12 .work ++ [.upRespS 0 200 true false, .work, .work, .upReset 0 .StreamRemoteReset] ++
+      List.replicate 4 .work))) =
+    ([.un 0, .uh 0 true, .dh 502 true, .log 502 16], true, 0) := by decide
+
+/-- **cleaned_holds_nothing**: on every schedule, once the stream is cleaned it holds no upstream request — no client stream is
+live, the upstream gauge is back at the ambient value 0, both timers are stopped: `cleanStream` resets the upstream request
+whenever one exists that is not done (two-way), in EVERY phase (the regenerated condition `Gen.ProxyBackoff.cleanResets` reads
+neither the phase nor the retry mark) — in particular when the client leaves while the wake-up from the back-off is sending
+the next attempt. -/
+theorem cleaned_holds_nothing (c : Cfg) (ar aq : Nat) (l : List Label) (h : (reach c ar aq l).cleaned = true) :
+    liveCount (reach c ar aq l).streams = 0 ∧ (reach c ar aq l).upActive = 0 ∧ (reach c ar aq l).perTry = false ∧
+    (reach c ar aq l).global = false ∧
+    (∀ s : S, ∀ p m, Gen.ProxyBackoff.cleanResets (resetFlags c s) p m = (s.up.isSome && !s.procDone && !c.oneway)) := by
+  have hi := inv_run c ar aq l
+  obtain ⟨_, h1, h2, h3⟩ := hi.k13 h
+  refine ⟨h1, ?_, h2, h3, fun s => cleanResets_regenerated c s⟩
+  have := hi.k11
+  simp only [K11, h1] at this
+  simpa using this
+
+/-- non-vacuity: a request with a body is retried; the client leaves after attempt 1 was sent by the wake-up: it is reset -/
+example : ((fun (s : S) => (s.trace, s.cleaned, s.upActive))
+    (reach { hasData := true, retryOn := true, numRetries := 1 } 0 0
+      (List.replicate 12 .work ++ [.upReset 0 .StreamConnectionFailed, .work, .work, .downReset .StreamConnectionTermination, .work]))) =
+    ([.un 0, .uh 0 false, .ud 0 true, .un 1, .uh 1 false, .ud 1 true, .ur 1, .log 504 0], true, 0) := by decide
+
+/-! ## proxy10: the global timer is armed once per request -/
+
+/-- **global_timer_armed_once**: on EVERY schedule — retries, late frames, timer callbacks inside the retry set-up, the client's
+departure, TerminateStream at any sleeping point — the global timer of a request is created at most once (`gtGen ≤ 1`), and not
+before the request was completely sent.  The arm sites are regenerated: `onUpstreamRequestSent` is the only function of
+pkg/proxy that assigns `responseTimer` a timer, `cleanUp` the only one that forgets it, and `onUpstreamRequestSent` is called by
+`receiveHeaders` / `receiveData` / `receiveTrailers` (for the part that completes the request) and by `doRetry` (when no timer
+object exists); the machine's `onUpstreamRequestSent` IS the regenerated step program. -/
+theorem global_timer_armed_once (c : Cfg) (ar aq : Nat) (l : List Label) :
+    (reach c ar aq l).gtGen ≤ 1 ∧ ((reach c ar aq l).reqSent = false → (reach c ar aq l).gtGen = 0) ∧
+    Gen.ProxyBackoff.armSites = ["onUpstreamRequestSent"] ∧ Gen.ProxyBackoff.forgetSites = ["cleanUp"] ∧
+    Gen.ProxyBackoff.requestSentCallers = ["doRetry", "receiveData", "receiveHeaders", "receiveTrailers"] ∧
+    (∀ s : S, onUpstreamRequestSent c s = Gen.ProxyBackoff.onUpstreamRequestSent (sentOps c) s) := by
+  have t := tinv_run c ar aq l
+  exact ⟨t.once, t.unsent, global_timer_sites.1, global_timer_sites.2.1, global_timer_sites.2.2,
+    onUpstreamRequestSent_regenerated c⟩
+
+/-- **retry_setup_regenerated**: the pieces of the retry set-up the machine uses are the regenerated step programs of the Go
+functions (`Gen.ProxyBackoff`): `setupRetry` (expiry test, mark, reset of the upstream request, per-try timer, swing of the
+response slot — with the worker's two yield sites as interleaving points), the global timer callback (clean test, expiry
+record, compare-and-swap, `onResponseTimeout`), `upstreamRequest.OnResetStream` (dropped when the request is marked), and the
+condition under which `cleanStream` resets the upstream request (independent of the phase and of the mark). -/
+theorem retry_setup_regenerated (c : Cfg) (s : S) :
+    (∀ eos, setupRetry c s eos = Gen.ProxyBackoff.setupRetry (srOps c) id id eos s) ∧
+    (globalFire c s = if !s.global then s else Gen.ProxyBackoff.globalCallback (gcOps c) { s with global := false }) ∧
+    (∀ r, upOnResetStream s r = Gen.ProxyBackoff.onResetStream (rsOps r) s) ∧
+    (∀ p m, Gen.ProxyBackoff.cleanResets (resetFlags c s) p m = (s.up.isSome && !s.procDone && !c.oneway)) :=
+  ⟨setupRetry_regenerated c s, globalFire_regenerated c s, upOnResetStream_regenerated s, cleanResets_regenerated c s⟩
+
+/-- non-vacuity: a request with a body whose first attempt is refused half-way arms its global timer at the first retry — once -/
+example : ((fun (s : S) => (s.gtGen, s.global, s.gtObj))
+    (reach { hasData := true, retryOn := true, numRetries := 2 } 0 0
+      ([.poolFail .connfail] ++ List.replicate 12 .work ++ [.upReset 1 .StreamConnectionFailed] ++ List.replicate 4 .work))) =
+    (1, true, true) := by decide
+
+/-- **the label `gtInSetup` is the global timer callback run INSIDE the regenerated `setupRetry`** (window (a): between the
+compare-and-swap of `setupRetry` and `processError` detaching the marked request).  `Gen.ProxyBackoff.setupRetry o w1 w2` is the
+regenerated step program with the worker's two yield sites as interleaving points (`w1` after the mark, `w2` after the swing of
+`upstreamResponseReceived`); `gtCallback` is the regenerated callback of a timer that has fired.  For every state in which the
+worker calls `setupRetry` with the timer armed: run the callback at a site, finish `setupRetry`, then the rest of the worker's
+phase (`restOfPhase`: `upstreamReset` cleared, `processError` detaches the marked request and hands back `Retry`) — the state the
+worker goes to sleep in is the back-off state of the UN-interleaved run followed by the label `gtInSetup false` (site 1) resp.
+`gtInSetup true` (site 2), up to `normL`: the listener registration of the client stream that is gone (which nothing reads).
+At site 1 with the slot free the callback's own reset of the given-up request is covered for `setupRetry(true)` (retry after an
+upstream reset: the client stream is gone); with the slot taken (retry on a response status) the callback only records the expiry. -/
+theorem global_timeout_window_is_label (c : Cfg) (s : S) (eos e : Bool) (hc : s.cleaned = false) (he : s.globalExpired = false)
+    (hu : s.up.isSome = true) (hd : s.downReset = false) (hdi : s.direct = false) (hg : s.global = true)
+    (hrun : s.running = true) (hp : s.pass < Gen.ProxyPhase.loopBudget) :
+    ((s.urr = true ∨ (eos = true ∧ ∀ k, curStream s = some k → streamLive s k = false)) →
+      normL (restOfPhase c (Gen.ProxyBackoff.setupRetry (srOps c) (gtCallback c) id eos s).1 e) =
+        normL (gtInSetup (restOfPhase c (setupRetry c s eos).1 e) false)) ∧
+    ((∀ k, curStream (setupRetry c s eos).1 = some k → streamLive (setupRetry c s eos).1 k = false) →
+      normL (restOfPhase c (Gen.ProxyBackoff.setupRetry (srOps c) id (gtCallback c) eos s).1 e) =
+        normL (gtInSetup (restOfPhase c (setupRetry c s eos).1 e) true)) :=
+  ⟨gtInSetup_after_mark c s eos e hc he hu hd hdi hg hrun hp, gtInSetup_after_swing c s eos e hc he hu hd hdi hg hrun hp⟩
+
+/-- the two windows in closed form (no hypothesis on the client stream): after the swing the callback wins the slot, resets the
+given-up request once more and its `OnResetStream` is dropped; after the mark it wins only a free slot, and `setupRetry` frees
+the slot again -/
+theorem global_timeout_windows_closed_form (c : Cfg) (s : S) (eos : Bool) (hc : s.cleaned = false) (he : s.globalExpired = false)
+    (hu : s.up.isSome = true) :
+    (Gen.ProxyBackoff.setupRetry (srOps c) id (gtCallback c) eos s).1 =
+      resetUpstream c { (setupRetry c s eos).1 with global := false, globalExpired := true, urr := true } ∧
+    (Gen.ProxyBackoff.setupRetry (srOps c) (gtCallback c) id eos s).1 =
+      { (setupRetry c (if s.urr then s else resetUpstream c s) eos).1 with global := false, globalExpired := true } :=
+  ⟨setupRetry_window_after_swing c s eos hc he hu, setupRetry_window_after_mark c s eos hc he hu⟩
+
+/-- the state in which the worker handles the reset of attempt 0 (timer armed, slot free, client stream gone) -/
+def exWinCfg : Cfg := { retryOn := true, numRetries := 1 }
+def exWinState : S := reach exWinCfg 0 0 (List.replicate 12 .work ++ [.upReset 0 .StreamConnectionFailed])
+
+/-- non-vacuity: that state satisfies every hypothesis, and there the interleaved run and the label agree up to `normL` but NOT
+literally -/
+example :
+    (!exWinState.cleaned && !exWinState.globalExpired && exWinState.up.isSome && !exWinState.downReset && !exWinState.direct &&
+      exWinState.global && exWinState.running && exWinState.pass == 0 && !exWinState.urr &&
+      !(match curStream exWinState with | some k => streamLive exWinState k | none => false)) = true ∧
+    (restOfPhase exWinCfg (Gen.ProxyBackoff.setupRetry (srOps exWinCfg) id (gtCallback exWinCfg) true exWinState).1 true ==
+      gtInSetup (restOfPhase exWinCfg (setupRetry exWinCfg exWinState true).1 true) true) = false ∧
+    (normL (restOfPhase exWinCfg (Gen.ProxyBackoff.setupRetry (srOps exWinCfg) id (gtCallback exWinCfg) true exWinState).1 true) ==
+      normL (gtInSetup (restOfPhase exWinCfg (setupRetry exWinCfg exWinState true).1 true) true)) = true := by decide
+
+/-- **the machine's `s.responseTimer != nil` is the pointer field**: `doRetry` arms both timers only when no timer object exists.
+The machine reads that test as `hasTimerObj` (so that `inv_run` needs no fact about the pointer); on every schedule an armed
+global timer has an object and an object exists only after the request was sent, hence `hasTimerObj` equals the field `gtObj`
+(set where the timer is created — the regenerated arm site —, kept when the timer fires or is stopped, forgotten by `cleanUp`). -/
+theorem timer_object_is_pointer (c : Cfg) (ar aq : Nat) (l : List Label) :
+    hasTimerObj (reach c ar aq l) = (reach c ar aq l).gtObj ∧
+    ((reach c ar aq l).global = true → (reach c ar aq l).gtObj = true) ∧
+    ((reach c ar aq l).gtObj = true → (reach c ar aq l).reqSent = true) :=
+  ⟨hasTimerObj_eq c ar aq l, (timer_object_run c ar aq l).1, (timer_object_run c ar aq l).2⟩
+
+/-- **attempts_bounded** (on the shared machine, the back-off a state): on every schedule — whatever lands during the back-off
+sleeps, inside the retry set-up, on a streamed response — the `ConnectionPool.NewStream` calls of one request (admitted `un` and
+refused `uf`) are at most `1 + max 3 numRetries`: the first attempt, then one per unit of the retry budget `newRetryState`
+starts with (`Gen.ProxyRetry.retriesFloor`, raised to the route's `NumRetries`).  From the regenerated `retryState.retry`
+(every `ShouldRetry` takes a unit), `setupRetry` called only after `ShouldRetry`, `processError` handing back the phase `Retry`
+only for a marked request, and `doRetry` creating at most one attempt per wake-up (`Lemmas/Downstream/Budget10.lean`). -/
+theorem attempts_bounded (c : Cfg) (ar aq : Nat) (l : List Label) :
+    (att (reach c ar aq l).trace).length ≤ 1 + max Gen.ProxyRetry.retriesFloor c.numRetries ∧
+    (reach c ar aq l).streams.length = (att (reach c ar aq l).trace).length :=
+  ⟨attempts_le_budget c ar aq l, (binv_run c ar aq l).w.cnt.symm⟩
+
+set_option maxRecDepth 8192 in
+/-- non-vacuity: the bound is attained — every attempt reset by the connection, `numRetries` 1 (below the floor 3) and 5 -/
+example : (att (reach { retryOn := true, numRetries := 1 } 0 0 (List.replicate 12 .work ++
+    (List.range 6).flatMap (fun k => [.upReset k .StreamConnectionFailed, .work, .work, .work]))).trace).length = 4 := by decide
+set_option maxRecDepth 8192 in
+example : (att (reach { retryOn := true, numRetries := 5 } 0 0 (List.replicate 12 .work ++
+    (List.range 8).flatMap (fun k => [.upReset k .StreamConnectionFailed, .work, .work, .work]))).trace).length = 6 := by decide
+
+end MosnVerif.Props.C03
+
+/-! ## c03w10: the reply write path can FAIL (`Model/ReplyWrite.lean`) — appended block
+
+The machine above writes a reply part in one infallible step.  In the code each part goes through `appendHeaders(endStream)` /
+`appendData(endStream)` / `appendTrailers()`, whose sender call can fail.  The theorems below are about the REGENERATED bodies
+of the three functions (`Gen.ProxyReplyWrite`, closed vocabulary: an early `return` on the error path is a step) run inside
+the regenerated callers' sequence (which part for which reply shape, the entry guards, the regenerated `processError` after
+every part), for ALL reply shapes × ALL outcome vectors (ok / error per part) × ALL positions of a downstream stream reset
+(between any two steps, in particular from inside the failing call, or never; delivered by the stream layer or by the proxy's
+connection-close callback, which skips a stream whose `upstreamProcessDone` is already set) × ALL start states (client already gone or not,
+upstream stream of a streamed response still open or not). -/
+namespace MosnVerif.Props.C03
+open MosnVerif.Model.ReplyWrite
+
+/-- **reply_write_ends_once**: whatever the sender returns and wherever the client's reset lands, the write of a reply ends
+with the worker returned and the stream cleaned, the BODY of `cleanStream` has run exactly once, `endStream` is entered at most
+once and exactly once after a part that ends the stream (never without one); and when the client stays for the whole write
+every part of the reply is handed to the sender in order — a failed non-final write does not stop the later parts —, the last
+one ends the stream, `endStream` follows once. -/
+theorem reply_write_ends_once (r : Reply) (o : Outs) (rp : Nat) (viaConn clientGone upLive : Bool) :
+    (writeReply genProgs r o rp viaConn (start clientGone upLive)).returned = true ∧
+    (writeReply genProgs r o rp viaConn (start clientGone upLive)).cleaned = true ∧
+    cleans (writeReply genProgs r o rp viaConn (start clientGone upLive)) = 1 ∧
+    ends (writeReply genProgs r o rp viaConn (start clientGone upLive)) ≤ 1 ∧
+    endsAfterEos (writeReply genProgs r o rp viaConn (start clientGone upLive)).ev = true ∧
+    (clientGone = false → 17 ≤ rp →
+      (writeReply genProgs r o rp viaConn (start clientGone upLive)).ev.filter isCall = expectedCalls r o ∧
+      ends (writeReply genProgs r o rp viaConn (start clientGone upLive)) = 1) := by
+  have h := good_all r o rp viaConn clientGone upLive
+  simp only [good, Bool.and_eq_true, beq_iff_eq, decide_eq_true_eq, Bool.or_eq_true, Bool.not_eq_true'] at h
+  obtain ⟨⟨⟨⟨⟨⟨⟨⟨⟨h1, h2⟩, h3⟩, h4⟩, h5⟩, _⟩, _⟩, _⟩, h9⟩, _⟩ := h
+  refine ⟨h1, h2, h3, h4, h5, fun hc hrp => ?_⟩
+  rcases h9 with (hh | hh) | hh
+  · rw [hc] at hh; cases hh
+  · omega
+  · exact hh
+
+/-- **header_only_reply_ends**: a header-only reply — every error reply MOSN generates itself (404 / 502 / 503 / 504, a hijack
+without body, `TerminateStream`: `local_reply_header_only`), a header-only upstream answer — whose `AppendHeaders` is reached
+(the client has not gone before the part is entered) is written with end of stream and followed by `endStream` at once, whether
+the write succeeds or FAILS and wherever a reset lands afterwards: the stream is cleaned once, the active gauge given back, the
+stream taken off the active list. -/
+theorem header_only_reply_ends (o : Outs) (rp : Nat) (viaConn upLive : Bool) (hrp : 1 ≤ rp) :
+    (writeReply genProgs ⟨false, false⟩ o rp viaConn (start false upLive)).ev.take 2 = [Ev.call .headers true o.h, Ev.endStream] ∧
+    ends (writeReply genProgs ⟨false, false⟩ o rp viaConn (start false upLive)) = 1 ∧
+    cleans (writeReply genProgs ⟨false, false⟩ o rp viaConn (start false upLive)) = 1 ∧
+    (writeReply genProgs ⟨false, false⟩ o rp viaConn (start false upLive)).active = 0 ∧
+    (writeReply genProgs ⟨false, false⟩ o rp viaConn (start false upLive)).listed = false := by
+  have h := good_all ⟨false, false⟩ o rp viaConn false upLive
+  simp only [good, Bool.and_eq_true, beq_iff_eq, decide_eq_true_eq, Bool.or_eq_true, Bool.not_eq_true'] at h
+  obtain ⟨⟨⟨⟨⟨⟨⟨⟨⟨_, _⟩, h3⟩, _⟩, _⟩, h6⟩, h7⟩, _⟩, _⟩, h10⟩ := h
+  rcases h10 with (((hh | hh) | hh) | hh) | hh
+  · cases hh
+  · cases hh
+  · cases hh
+  · omega
+  · exact ⟨hh.1, hh.2, h3, h6, h7⟩
+
+/-- the replies MOSN generates itself with `sendHijackReply` are header-only whatever the stream held before (regenerated
+effects, `Gen.ProxyReply`); with `sendHijackReplyWithBody` they are headers + body, never trailers -/
+theorem local_reply_header_only (heldData heldTrailers : Bool) :
+    hijackShape false heldData heldTrailers = ⟨false, false⟩ ∧ hijackShape true heldData heldTrailers = ⟨true, false⟩ := by
+  cases heldData <;> cases heldTrailers <;> decide
+
+/-- **write_error_never_strands**: for every reply, every outcome vector — in particular every one with a failing write —,
+every reset position and every start state, the worker never returns from the write leaving the stream half-ended: when it
+has returned the stream is cleaned, `upstreamProcessDone` set, the active gauge at 0, the stream off the proxy's active list. -/
+theorem write_error_never_strands (r : Reply) (o : Outs) (rp : Nat) (viaConn clientGone upLive : Bool) :
+    (writeReply genProgs r o rp viaConn (start clientGone upLive)).returned = true ∧
+    (writeReply genProgs r o rp viaConn (start clientGone upLive)).cleaned = true ∧
+    (writeReply genProgs r o rp viaConn (start clientGone upLive)).procDone = true ∧
+    (writeReply genProgs r o rp viaConn (start clientGone upLive)).active = 0 ∧
+    (writeReply genProgs r o rp viaConn (start clientGone upLive)).listed = false := by
+  have h := good_all r o rp viaConn clientGone upLive
+  simp only [good, Bool.and_eq_true, beq_iff_eq, decide_eq_true_eq, Bool.or_eq_true, Bool.not_eq_true'] at h
+  obtain ⟨⟨⟨⟨⟨⟨⟨⟨⟨h1, h2⟩, _⟩, _⟩, _⟩, h6⟩, h7⟩, h8⟩, _⟩, _⟩ := h
+  exact ⟨h1, h2, h8, h6, h7⟩
+
+/-- negation witness — `appendHeaders` with "reset and return" on the error path (`if err != nil { s.resetStream(); return }`):
+for a header-only reply `upstreamProcessDone` is already true when the write fails, so `resetStream()` is a no-op, `endStream` is
+skipped, `processError` sees the process done and the worker returns: NOT cleaned, gauge held, still on the active list -/
+example : ((fun (f : RW) => (f.returned, f.cleaned, f.active, f.listed, f.ev))
+    (writeReply earlyReturnHeaders ⟨false, false⟩ ⟨false, true, true⟩ 17 false (start false false))) =
+    (true, false, 1, true, [Ev.call .headers true false]) := by decide
+/-- … and nothing ends it afterwards: not the client's reset, not the connection close (`stranded_stays`) -/
+example : ((fun (f : RW) => (f.cleaned, f.active, f.listed))
+    (exec ⟨false, true, true⟩ (start false false) (ops earlyReturnHeaders ⟨false, false⟩ ++ [Op.reset, Op.connClose, Op.reset]))) =
+    (false, 1, true) := by decide
+/-- … while a reply WITH body survives that variant (the reset reaches the client stream, `processError` cleans up): the
+defect shows on header-only replies only -/
+example : ((fun (f : RW) => (f.cleaned, f.ev))
+    (writeReply earlyReturnHeaders ⟨true, false⟩ ⟨false, true, true⟩ 17 false (start false false))) =
+    (true, [Ev.call .headers false false, Ev.dr, Ev.clean]) := by decide
+/-- negation witness — `appendData` that ends the stream only when the write succeeded: a failing last data write strands the stream -/
+example : ((fun (f : RW) => (f.returned, f.cleaned, f.active, f.ev))
+    (writeReply dataEndsOnlyOnSuccess ⟨true, false⟩ ⟨true, false, true⟩ 17 false (start false false))) =
+    (true, false, 1, [Ev.call .headers false true, Ev.call .data true false]) := by decide
+/-- the regenerated code on the same inputs: ended and cleaned once -/
+example : ((fun (f : RW) => (f.cleaned, f.active, f.ev))
+    (writeReply genProgs ⟨false, false⟩ ⟨false, true, true⟩ 17 false (start false false))) =
+    (true, 0, [Ev.call .headers true false, Ev.endStream, Ev.clean]) := by decide
+example : ((fun (f : RW) => (f.cleaned, f.active, f.ev))
+    (writeReply genProgs ⟨true, false⟩ ⟨true, false, true⟩ 17 false (start false false))) =
+    (true, 0, [Ev.call .headers false true, Ev.call .data true false, Ev.endStream, Ev.clean]) := by decide
+/-- a reset delivered from inside the failing `AppendHeaders` of a reply with body and trailers, the upstream stream of the
+streamed response still open: no further part is written, `processError` cleans up once and resets the upstream stream -/
+example : (writeReply genProgs ⟨true, true⟩ ⟨false, true, true⟩ 3 false (start false true)).ev =
+    [Ev.call .headers false false, Ev.ur, Ev.clean] := by decide
+/-- the connection closes inside the failing LAST write: `upstreamProcessDone` is already set, the proxy's connection-close
+callback skips the stream — nothing but the `endStream` that follows can end it, and it does -/
+example : ((fun (f : RW) => (f.downReset, f.cleaned, f.ev))
+    (writeReply genProgs ⟨true, false⟩ ⟨true, false, true⟩ 8 true (start false false))) =
+    (false, true, [Ev.call .headers false true, Ev.call .data true false, Ev.endStream, Ev.clean]) := by decide
+/-- a reset that lands between the last write and `endStream`: `endStream` still runs, the clean-up runs once (`clean_once`) -/
+example : (writeReply genProgs ⟨true, false⟩ ⟨true, false, true⟩ 8 false (start false false)).ev =
+    [Ev.call .headers false true, Ev.call .data true false, Ev.endStream, Ev.clean] := by decide
+
+/-- **reply_write_clean_once** (any program): for ANY op list over the vocabulary — any bodies of the three functions, any
+interleaving of stream resets and connection closes, any sender outcomes — from a reachable state of the downstream machine
+(whose `clean_once` gives the starting count) the body of `cleanStream` has run exactly once iff the stream is cleaned, never
+twice, and the stream is on the active list iff it is not cleaned: the compare-and-swap in `cleanStream` is what `endStream`,
+`processError`'s `ResetStream` and a filter's termination all go through. -/
+theorem reply_write_clean_once (c : Model.Downstream.Cfg) (ar aq : Nat) (l : List Model.Downstream.Label) (o : Outs) (w : List Op) :
+    cleans (exec o (viewOf (reach c ar aq l).procDone (reach c ar aq l).cleaned (reach c ar aq l).downReset
+      (reach c ar aq l).downLive (Model.Downstream.nLog (reach c ar aq l).trace)) w) =
+      (if (exec o (viewOf (reach c ar aq l).procDone (reach c ar aq l).cleaned (reach c ar aq l).downReset
+        (reach c ar aq l).downLive (Model.Downstream.nLog (reach c ar aq l).trace)) w).cleaned then 1 else 0) ∧
+    (exec o (viewOf (reach c ar aq l).procDone (reach c ar aq l).cleaned (reach c ar aq l).downReset
+      (reach c ar aq l).downLive (Model.Downstream.nLog (reach c ar aq l).trace)) w).listed =
+      !(exec o (viewOf (reach c ar aq l).procDone (reach c ar aq l).cleaned (reach c ar aq l).downReset
+        (reach c ar aq l).downLive (Model.Downstream.nLog (reach c ar aq l).trace)) w).cleaned := by
+  have hv := viewOf_inv (reach c ar aq l).procDone (reach c ar aq l).cleaned (reach c ar aq l).downReset
+    (reach c ar aq l).downLive (Model.Downstream.nLog (reach c ar aq l).trace) (clean_once c ar aq l)
+  have := exec_cleanInv o w _ hv
+  exact ⟨this.count, this.listed⟩
+
+/-- **ok_write_is_machine_step**: the machine's infallible reply steps are the all-writes-succeed runs of the regenerated append
+programs — from every reachable machine state that is not cleaned (so `clean_once` gives "no clean-up body so far"), the
+successful run of `appendHeaders(eos)` / `appendData(eos)` / `appendTrailers()` on the write path's view of the state yields
+the same `upstreamProcessDone`, `downstreamCleaned`, `downstreamReset`, number of clean-up bodies and gauge as the machine's
+`dsAppendHeaders` / `dsAppendData` / `dsAppendTrailers`.  The theorems above extend these steps to failing writes and
+interleaved departures of the client. -/
+theorem ok_write_is_machine_step (c : Model.Downstream.Cfg) (ar aq : Nat) (l : List Model.Downstream.Label) (eos : Bool)
+    (hc : (reach c ar aq l).cleaned = false) :
+    common (okPart .headers eos (viewS (reach c ar aq l))) = commonS (Model.Downstream.dsAppendHeaders c (reach c ar aq l) eos) ∧
+    common (okPart .data eos (viewS (reach c ar aq l))) = commonS (Model.Downstream.dsAppendData c (reach c ar aq l) eos) ∧
+    common (okPart .trailers true (viewS (reach c ar aq l))) = commonS (Model.Downstream.dsAppendTrailers c (reach c ar aq l)) := by
+  have h0 : Model.Downstream.nLog (reach c ar aq l).trace = 0 := by
+    have := clean_once c ar aq l
+    rw [hc] at this
+    simpa using this
+  exact ⟨ok_headers_is_machine_step c _ eos hc h0, ok_data_is_machine_step c _ eos hc h0, ok_trailers_is_machine_step c _ hc h0⟩
+
+/-- non-vacuity: the request is sent, a header-only 200 arrives, the worker is about to write it — not cleaned -/
+example : (reach {} 0 0 (List.replicate 12 .work ++ [.upResp 0 200 false false, .work, .work])).cleaned = false ∧
+    (reach {} 0 0 (List.replicate 12 .work ++ [.upResp 0 200 false false, .work, .work])).phase = .UpRecvHeader := by decide
+
+/-- the worker has returned from the write exactly as `worker_returns_iff_cleaned` says of the machine: returned and cleaned -/
+theorem reply_write_returns_cleaned (r : Reply) (o : Outs) (rp : Nat) (viaConn clientGone upLive : Bool) :
+    (writeReply genProgs r o rp viaConn (start clientGone upLive)).returned =
+      (writeReply genProgs r o rp viaConn (start clientGone upLive)).cleaned := by
+  have := reply_write_ends_once r o rp viaConn clientGone upLive
+  rw [this.1, this.2.1]
 
 end MosnVerif.Props.C03
